@@ -27,6 +27,14 @@ KINDS = ("list", "tuple", "nd", "ndint")
 UC = [("m", "length"), ("cm", "depth"), ("km", "length"), ("s", "time"), ("min", "time"), ("degC", "temperature"), ("K", "temperature"), ("kg", "mass"), ("ft", "diameter")]
 
 
+def srepr(o):
+    """repr for a report: an object whose invariant is broken may not even print"""
+    try:
+        return repr(o)
+    except Exception as e:
+        return "<%s whose repr raises %s>" % (type(o).__name__, type(e).__name__)
+
+
 def cont(vals, kind):
     import numpy as np
 
@@ -63,6 +71,27 @@ def run_route(route, d, n, kind, u, c, r):
     """-> (callable, expected_ok, expected_dimension, sources[list of (label, object)])"""
     from barril.units import FixedArray, ObtainQuantity, Scalar
 
+    if kind.startswith("unsized"):
+        # a value that has no length at all (a 0-d ndarray, a numpy float) is no container of `dimension` values: every route
+        # that is told a dimension refuses it (with ValueError or, the container being ill-typed, TypeError) - none accepts it
+        import numpy as np
+
+        if route in ("FromScalars", "ctor(d,category)", "ctor(d,category,unit=)", "ctor(d,quantity)", "CreateEmptyArray(d)", "reduce-args(d replaced)") or "category-less" in route or "quotient" in route:
+            return None
+        v = np.array(5.0) if kind == "unsized-nd0" else np.float64(5.0)
+        q = ObtainQuantity(u, c)
+        table_ = {
+            "ctor(d,values,unit)": lambda: FixedArray(d, v, u), "ctor(d,category,values,unit)": lambda: FixedArray(d, c, v, u), "ctor(d,quantity,values)": lambda: FixedArray(d, q, v),
+            "CreateWithQuantity(q,values=,dimension=)": lambda: FixedArray.CreateWithQuantity(q, values=v, dimension=d), "CreateWithQuantity(q,value=,dimension=)": lambda: FixedArray.CreateWithQuantity(q, value=v, dimension=d),
+            "CreateWithQuantity(q,values,None,d)": lambda: FixedArray.CreateWithQuantity(q, v, None, d), "CreateEmptyArray(d,values)": lambda: FixedArray.CreateEmptyArray(d, v),
+        }  # fmt: skip
+        if route in table_:
+            return table_[route], "unsized", d, []
+        if route.startswith("CreateCopy(values=") and d >= 2:
+            a = FixedArray(d, q, [1.0] * d)
+            kw = {"unit": u} if "unit=" in route else {}
+            return (lambda: a.CreateCopy(values=v, **kw)), "unsized", d, [("array", a)]
+        return None
     if kind.startswith("rows"):
         # a container of rows (points): what counts is the number of rows, whatever their width - also when the
         # width happens to equal the dimension
@@ -160,7 +189,7 @@ def routes(ctx, r, n_cases):
         route = r.choice(ROUTES)
         d = r.choice([0, 1, 2, 2, 3, 3, 4, 5, 6])
         n = d if r.random() < 0.4 else r.randint(0, 7)
-        kind = r.choice(KINDS + ("rows-list", "rows-tuple"))
+        kind = r.choice(KINDS + ("rows-list", "rows-tuple", "unsized-nd0", "unsized-npfloat"))
         u, c = r.choice(UC)
         try:
             built = run_route(route, d, n, kind, u, c, r)
@@ -184,19 +213,27 @@ def routes(ctx, r, n_cases):
         after = [(lbl, snapshot.value_object(o) if hasattr(o, "GetQuantity") else csnap(o)) for lbl, o in sources]
         if before != after:
             ctx.violation("source-changed:%s" % route, dict(case, before=repr(before)[:300], after=repr(after)[:300], outcome=repr(exc or res)[:120]), replay=case)
+        if exp_ok == "unsized":
+            if exc is None:
+                ctx.violation("unsized-value-accepted:%s" % route, dict(case, result=srepr(res)[:160]), replay=case)
+            elif not isinstance(exc, (ValueError, TypeError)):
+                ctx.violation("refusal-not-ValueError:%s:%s" % (route, type(exc).__name__), dict(case, error=str(exc)[:200]), replay=case)
+            else:
+                ctx.count("refused")
+            continue
         if exc is None:
             ctx.count("accepted")
             if isinstance(res, FixedArray):
                 p = sizes.check_fixedarray(res)
                 if p:
-                    ctx.violation("invariant-broken:%s" % route, dict(case, problem=p, result=repr(res)[:160]), replay=case)
+                    ctx.violation("invariant-broken:%s" % route, dict(case, problem=p, result=srepr(res)[:160]), replay=case)
                     continue
             if exp_ok is None:
                 continue
             if not isinstance(res, FixedArray):
-                ctx.violation("not-a-FixedArray:%s" % route, dict(case, result=repr(res)[:160]), replay=case)
+                ctx.violation("not-a-FixedArray:%s" % route, dict(case, result=srepr(res)[:160]), replay=case)
             elif not exp_ok:
-                ctx.violation("mismatch-accepted:%s" % route, dict(case, result=repr(res)[:160], result_dimension=res.dimension), replay=case)
+                ctx.violation("mismatch-accepted:%s" % route, dict(case, result=srepr(res)[:160], result_dimension=res.dimension), replay=case)
             elif res.dimension != exp_dim:
                 ctx.violation("wrong-dimension:%s" % route, dict(case, result_dimension=res.dimension, expected=exp_dim), replay=case)
         else:
@@ -333,16 +370,16 @@ def chains(ctx, r, n_chains):
             if isinstance(res, FixedArray):
                 p = sizes.check_fixedarray(res)
                 if p:
-                    ctx.violation("chain-invariant-broken:%s" % k, dict(case, problem=p, result=repr(res)[:160]), replay=case)
+                    ctx.violation("chain-invariant-broken:%s" % k, dict(case, problem=p, result=srepr(res)[:160]), replay=case)
                     break
                 if res.dimension != d:
                     ctx.violation("chain-dimension-changed:%s" % k, dict(case, result_dimension=res.dimension), replay=case)
                     break
             if exp_bad:
-                ctx.violation("chain-mismatch-accepted:%s" % k, dict(case, result=repr(res)[:160]), replay=case)
+                ctx.violation("chain-mismatch-accepted:%s" % k, dict(case, result=srepr(res)[:160]), replay=case)
                 continue
             if not isinstance(res, FixedArray):
-                ctx.violation("chain-result-not-FixedArray:%s" % k, dict(case, result=repr(res)[:160]), replay=case)
+                ctx.violation("chain-result-not-FixedArray:%s" % k, dict(case, result=srepr(res)[:160]), replay=case)
                 break
             cur = res
             KEEP.append(res)
@@ -606,7 +643,7 @@ def do_sweep(ctx, where):
     ctx.count("gc sweep: live Curves checked", n_cv)
     ctx.ev(n_fa + n_cv)
     for o, p in bad[:5]:
-        ctx.violation("gc-sweep:%s" % type(o).__name__, {"after": where, "problem": p, "object": repr(o)[:160]})
+        ctx.violation("gc-sweep:%s" % type(o).__name__, {"after": where, "problem": p, "object": srepr(o)[:160]})
 
 
 def run(ctx):
@@ -683,7 +720,7 @@ def replay(ctx, d):
                     continue
                 p = sizes.check_object(res)
                 if p or exp_ok is False or (exp_ok and res.dimension != exp_dim):
-                    ctx.violation("replayed:%s" % d["route"], dict(d, problem=p, result=repr(res)[:160]))
+                    ctx.violation("replayed:%s" % d["route"], dict(d, problem=p, result=srepr(res)[:160]))
         else:
             # histories are regenerated from the seed: run the quick workload of shard 0
             routes(ctx, ctx.rng("routes0"), 1500)
